@@ -160,9 +160,23 @@ def _membership(w, e, s, l, r, positive, outs):
     _emit(outs, a, b, positive)
 
 
+def _as_set_literal(w, t, s):
+    """a set display, or frozenset(...)/set(...) of a display, or a module constant bound to one"""
+    lit = t
+    if isinstance(t, tuple) and len(t) == 2 and t[0] == "global" and t[1].startswith("const:"):
+        lit = w.const_literal(t, s) or t
+    if is_call(lit, ("builtin:frozenset", "builtin:set")) and len(lit[2]) == 1 and is_lit(lit[2][0]) and lit[2][0][1] in ("set", "list", "tuple"):
+        inner = lit[2][0]
+        return ("lit", "set", inner[2], inner[3])
+    if is_lit(lit, "set"):
+        return lit
+    return t
+
+
 def _equality(w, e, s, l, r, positive, outs):
     if is_const(l) and not is_const(r):
         l, r = r, l
+    r = _as_set_literal(w, r, s)
     if is_const(l) and is_const(r):
         outs.append((s, "val", C((l[2] == r[2]) == positive)))
         return
